@@ -7,6 +7,7 @@ import Nri.Proofs.LibMemTrack
 import Nri.Proofs.LibMemUpd
 import Nri.Proofs.LibMemFit
 import Nri.Proofs.LibMemCommit
+import Nri.Proofs.LibMemStrict
 import Nri.Props.C06
 import Nri.Gen.LibmemFacts
 /-!
@@ -353,5 +354,111 @@ example : (St.run { nodes := exampleSt.nodes }
     [.allocate { id := "res", size := 60, aff := 1, types := 0, strict := false, prio := 32767, created := 1 },
      .allocate { id := "b", size := 30, aff := 1, types := 0, strict := false, prio := 1024, created := 2 },
      .allocate { id := "g", size := 30, aff := 1, types := 0, strict := false, prio := 16384, created := 3 }]).zoneFree 1 = 10 := by rfl
+
+theorem step_placement' (s : St) (hw : WF s) (op : Op) : WF (s.step op) := by
+  cases op with
+  | allocate r => exact allocate_wf s hw r
+  | getOffer r => exact (every_operation_keeps_wf s hw).2.1 r
+  | realloc id nodes types => exact realloc_wf s hw id nodes types
+  | release id => exact release_wf s hw id
+
+/-! ### histories: strict type preference
+
+"A request with strict type preference is assigned only nodes of the requested types": as an
+invariant over histories, `StrictInv` = every strict request's zone has only types of the
+request's `types` (the validated creation types, extended by the types re-allocations found).
+It is established by `Allocate` (initial zone inside `byTypes`, normal-memory expansion within
+the requested types), kept by overcommit resolution (a strict request is moved only when its
+types are exactly the zone's types plus the types of the added nodes; `expand` returns nodes of
+the types it reports), by offers, failures and releases, and by re-allocations of NON-strict
+requests.  Re-allocating a strict request with new nodes names further types; the model's
+`types` field records only those that expansion found, so the invariant in this form is not
+claimed across such a step (the correspondence run judges it against the union of all named
+types) - `realloc_strict_partial` below says exactly which steps are covered. -/
+
+/-- the operation does not re-allocate a strict request -/
+def Op.reallocTargetsNonStrict (s : St) : Op → Prop
+  | .realloc id _ _ => ∀ q, s.req? id = some q → q.strict = false
+  | _ => True
+
+/-- a history in which no strict request is re-allocated -/
+def StrictSafe : St → List Op → Prop
+  | _, [] => True
+  | s, op :: ops => op.reallocTargetsNonStrict s ∧ StrictSafe (s.step op) ops
+
+theorem step_strict (s : St) (hw : WF s) (h : SU s) (op : Op) (hop : op.reallocTargetsNonStrict s) :
+    SU (s.step op) := by
+  cases op with
+  | allocate r =>
+    show SU (s.Allocate r).1
+    cases hres : (s.Allocate r).2 with
+    | error e =>
+      obtain ⟨h1, _, _⟩ := allocate_fail_unchanged s hw r e hres
+      exact su_of_reqs_eq s _ h h1 (Allocate_nodes s hw r)
+    | ok res => exact Allocate_su s hw h r res hres
+  | getOffer r =>
+    show SU (s.GetOffer r).1
+    exact su_of_reqs_eq s _ h (getOffer_pure s hw r).1 (GetOffer_nodes s hw r)
+  | realloc id nodes types =>
+    show SU (s.Realloc id nodes types).1
+    cases hres : (s.Realloc id nodes types).2 with
+    | error e =>
+      obtain ⟨h1, _, _⟩ := realloc_spec s hw id nodes types e hres
+      exact su_of_reqs_eq s _ h h1 (Realloc_nodes s hw id nodes types)
+    | ok res => exact Realloc_su s hw h id nodes types res hres hop
+  | release id =>
+    show SU (s.Release id).1
+    cases hres : (s.Release id).2 with
+    | error e =>
+      have hsame : (s.Release id).1 = s := by
+        unfold St.Release at hres ⊢
+        cases hr : s.req? id with
+        | none => rfl
+        | some r =>
+          simp only [hr] at hres ⊢
+          split
+          · rfl
+          · rename_i hz; simp [hz] at hres
+      rw [hsame]; exact h
+    | ok u =>
+      obtain ⟨h1, _⟩ := release_ok s id hres
+      have hn := Release_nodes s id
+      refine ⟨nodesUniq_of_nodes s _ hn h.1, ?_⟩
+      intro q hq hs
+      rw [h1] at hq
+      rw [zoneType_nodes s _ hn]
+      exact h.2 q (List.mem_filter.1 hq).1 hs
+
+/-- **strict types over histories**: on a node table with unique ids, after every history of
+Allocate / GetOffer / Realloc / Release in which no strict request is re-allocated, every request
+with strict type preference is assigned only nodes whose types are among its requested types. -/
+theorem run_strict (nodes : List Node) (hu : NodesUniq { nodes := nodes }) (ops : List Op)
+    (hsafe : StrictSafe { nodes := nodes } ops) : StrictInv (St.run { nodes := nodes } ops) := by
+  have key : ∀ (ops : List Op) (s : St), WF s → SU s → StrictSafe s ops → SU (s.run ops) := by
+    intro ops
+    induction ops with
+    | nil => intro s _ h _; exact h
+    | cons op ops ih =>
+      intro s hw h hs
+      have hrun : s.run (op :: ops) = (s.step op).run ops := rfl
+      rw [hrun]
+      exact ih (s.step op) (step_placement' s hw op) (step_strict s hw h op hs.1) hs.2
+  exact (key ops _ (hinv_init nodes).wf ⟨hu, by intro q hq; cases hq⟩ hsafe).2
+
+/-- what is and is not covered for re-allocations (the statement, for the record): a successful
+`Realloc` of a non-strict request keeps the invariant for all strict requests. -/
+theorem realloc_strict_partial (s : St) (hw : WF s) (h : SU s) (id : String) (nodes : Mask) (types : Nat) (res : Result)
+    (hok : (s.Realloc id nodes types).2 = .ok res) (hns : ∀ q, s.req? id = some q → q.strict = false) :
+    StrictInv (s.Realloc id nodes types).1 :=
+  (Realloc_su s hw h id nodes types res hok hns).2
+
+-- non-vacuity: a strict DRAM request on a DRAM+PMEM machine, under pressure, stays on DRAM
+example :
+    let nodes : List Node := [{ id := 0, typ := 0, cap := 100, normal := true, dist := [10, 21] },
+                              { id := 1, typ := 1, cap := 100, normal := true, dist := [21, 10] }]
+    (St.run { nodes := nodes }
+      [.allocate { id := "s", size := 60, aff := 1, types := 1, strict := true, prio := 1024, created := 1 },
+       .allocate { id := "b", size := 60, aff := 1, types := 0, strict := false, prio := 1024, created := 2 }]).reqs.map
+        (fun q => (q.id, q.zone, q.strict)) = [("s", 1, true), ("b", 3, false)] := by rfl
 
 end Nri.LibMem
